@@ -34,15 +34,19 @@ RULE = (
     "returned disposable (also across threads), dispose(), sleep(ms) on the fake clock, await(n) = wait until n actions have "
     "started. Engine DET (vlib/det.py) serialises all "
     "threads with yield points at every source line of reactivex and every primitive operation; time only moves when every "
-    "thread is blocked. enum: hand-picked + all shape-(1,1)/(2,1)/(2,)/(3,) programs over a small alphabet, EVERY schedule "
-    "with <=1 (quick) / <=2 (thorough, smaller set) preemptions; gen: drawn programs (<=2 threads x <=4 commands) with <=3 "
+    "thread is blocked. enum: 23 hand-picked programs + all shape-(1,1)/(2,1)/(2,)/(3,) programs over the alphabet {schedule, "
+    "schedule_relative(2ms), cancel(0), dispose}, each with exit_if_empty off and on, under EVERY schedule with <=1 preemption "
+    "(quick); thorough adds EVERY schedule with <=2 preemptions for the hand-picked and the shape-(1,)/(1,1)/(2,) programs; gen: drawn programs (<=2 threads x <=4 commands) with <=3 "
     "drawn preemption points. Oracle over the sequentially consistent event log (call/return of every command, start/end of "
     "every action with thread id and fake clock): (serial) no action starts while another is running, every action runs on a "
     "library-started thread, never on a caller, at most once, and without exit_if_empty all on the one loop thread and never "
     "more than one loop thread is created; (immediate order) two immediately-due actions (schedule(), delay <= 0, absolute "
     "time <= now) where A's schedule call returned before B's began start in that order; (timed) an action never starts "
     "before its due time and two timed actions with due(A) < due(B) start in that order; (cancel) an action whose disposable's "
-    "dispose() returned before it started never starts; (dispose) a schedule* call begun after a dispose() returned raises "
+    "dispose() returned (with no other dispose() of it still in flight) before the loop examined the item for the last time "
+    "(its is_cancelled() look right before invoking, observed through a logging ScheduledItem subclass; the start itself if "
+    "there was no look) never starts - a cancellation completing inside the loop's check->invoke window is counted (class) but "
+    "tolerated; (dispose) a schedule* call begun after a dispose() returned raises "
     "DisposedException and its action never runs, and DisposedException is never raised before any dispose() began; "
     "(liveness) if no dispose() was issued, every action whose schedule call returned and that nobody tried to cancel has run "
     "to its end by quiescence - in particular after an exit_if_empty thread exited a later schedule starts a new thread and "
@@ -177,7 +181,7 @@ def _judge(case, ctx, res):
         return (f"escaped:{type(e).__name__}", f"thread {tid} ({res.names.get(tid)}): {e!r}"), False, cl
     specs = ctx["specs"]
     call, ret, start, end = {}, {}, {}, {}
-    cret, ccalled, exam, commit = {}, set(), {}, {}
+    cret, ccalled, exam, commit, inflight = {}, set(), {}, {}, {}
     dcalls, drets = [], []
     running = None
     for k, (step, tid, pl) in enumerate(res.events):
@@ -204,8 +208,13 @@ def _judge(case, ctx, res):
             exam[pl[1]] = k
         elif kind == "ccall":
             ccalled.add(pl[1])
+            inflight[pl[1]] = inflight.get(pl[1], 0) + 1
         elif kind == "cret":
-            cret.setdefault(pl[1], k)
+            # the cancellation is complete at the first return with no other dispose() of the same disposable in flight
+            # (Disposable.dispose is at-most-once: a second concurrent call returns while the first is still cancelling)
+            inflight[pl[1]] -= 1
+            if inflight[pl[1]] == 0:
+                cret.setdefault(pl[1], k)
         elif kind == "dcall":
             dcalls.append(k)
         elif kind == "dret":
@@ -357,7 +366,6 @@ _HAND = [
     [[_now(0, [_now()])], [["await", 2], _rel(0)]],
 ]
 _ALPHA = [_now(), _rel(2), ["cancel", 0], ["dispose"]]
-_ALPHA_S = [_now(), _rel(1), ["dispose"]]
 
 
 def _programs(alpha, shape):
@@ -379,10 +387,9 @@ def _enum(tier):
             progs += list(_programs(_ALPHA, shape))
     else:
         K = 2
-        progs = []
+        progs = list(_HAND)
         for shape in ((1,), (1, 1), (2,)):
-            progs += list(_programs(_ALPHA_S, shape))
-        progs += [[[_now(), ["cancel", 0]]], [[_now()], [["sleep", 1], _now()]], [[_rel(1), ["cancel", 0]], [_now()]]]
+            progs += list(_programs(_ALPHA, shape))
     for prog in progs:
         for eie in (False, True):
             yield {"eie": eie, "threads": prog, "sched": {"mode": "all", "K": K}}
